@@ -6,8 +6,9 @@ Import ListNotations.
 
 (* [Denote f s]: s is a string of the RFC 4515 grammar (plus the documented extensions: a bare item, (&) and (|)) for the syntax
    tree f, with every escaping choice ([ValEnc]: a value byte as itself unless NUL ( ) * \, or as \hh with either-case hex).
-   [ber f]: the RFC 4511 Filter of f.  [NoF14 f]: f contains no extensible item whose matching rule is named "dn" (in any case) without
-   the dn flag - the one shape on which the RFC's grammar itself is ambiguous (c08_dn_rule_ambiguity). *)
+   [ber f]: the RFC 4511 Filter of f.  [NoF14 f]: f contains no extensible item WITH an attribute description whose matching rule is named "dn" (in any case)
+   without the dn flag - a:dn:=v, the one shape on which the RFC's grammar itself is ambiguous (c08_dn_rule_ambiguity). Without an
+   attribute description :dn:=v has one reading only, the rule named dn, and is within the theorem (repair F52). *)
 Theorem c08_complete : forall f s, Denote f s -> NoF14 f -> parse s = Some (ber f).
 Proof. exact FilterSpec.c08_complete_modulo_F14. Qed.
 
